@@ -202,7 +202,10 @@ def run_spec(ctx, rep, spec, cases, model, limit=None):
                 if bm is not None:
                     idxs = bm[1][:3]
                     if farg is not None:
-                        pending.append((case, real, [(b, model_req(lv, b, farg)) for b in idxs], bm[0]))
+                        try:
+                            pending.append((case, real, [(b, model_req(lv, b, farg)) for b in idxs], bm[0]))
+                        except IndexError:
+                            rep.fail(f"the reader's table of level {lv} lists fewer boxes than the level holds", case)
     if model and reqs:
         replies = leanio.driver(reqs)
         for case, real, bsel, level, ri in boxpend:
@@ -319,11 +322,14 @@ def histories(ctx, rep, spec):
 def specs_for(ctx, n):
     out = []
     for i in range(n):
-        nf = [1, 2, 3, 4, 5, 3, 2, 12][i % 8]
+        nf = [1, 2, 3, 4, 5, 3, 2, 24][i % 8]
         thin = i % 4 == 3           # one-cell blocks: boxes one cell thick in some direction
         nd = [3, 2, 3][i % 3]
         out.append(plotgen.random_spec(ctx.rng, ndims=nd, nf=nf, data="bits", B=1 if thin else 2,
                                        nblk=[3, 2, 2][:nd] if thin else None, repeats=(i % 5 == 4)))
+        if i % 8 == 6:
+            # twelve levels (the directory Level_10 sorts before Level_2): a chain of small refined patches
+            out[-1] = plotgen.random_spec(ctx.rng, ndims=nd, nlev=12, nf=2, data="bits", B=2, nblk=[2, 1, 1][:nd], refine_p=0.05)
         if i % 7 in (1, 4) and min(out[-1]["grid0"]) >= 2:
             # index space reaching below zero (first cell of the domain negative, last one >= 0)
             out[-1]["idx_shift"] = -ctx.rng.randint(1, min(out[-1]["grid0"]) - 1)
